@@ -331,7 +331,11 @@ def c07(tier):
     if quick:
         rng.shuffle(perms)
         perms = perms[:40]
-    cases = json.loads(json.dumps(list(lgrams.CURATED_MODES) + perms))
+    names = lgrams.mode_name_variants()
+    if quick:
+        names = [c for c in names if c["id"].split("~")[0] in ("nested", "pop-then-push", "unused-mode-sorts-first", "unused-mode-in-the-middle")
+                 and c["id"].split("~")[1] in ("mixedcase", "mixedcase2", "numeric", "underscore", "mixedcase-swapped")]
+    cases = json.loads(json.dumps(list(lgrams.CURATED_MODES) + perms + names))
     X = lex_explore(rep, sc, cases, rng, 1500 if quick else 3000, 1500 if quick else 3000, 10 if quick else 60, alpha_cap=6)
     acc, lruns = X["acc"], X["lruns"]
     bad, ro = run_lexobs(sc, X["lcases"], lruns)
@@ -461,7 +465,7 @@ def c11(tier):
     rng = random.Random(seed())
     quick = tier == "quick"
     cases = list(lgrams.nullable_cases()) + list(lgrams.CURATED_GREEDY) + list(lgrams.CURATED_MODES)
-    cases += lgrams.ng_cases()[-4:] + lgrams.random_specs(seed() + 11, 15 if quick else 200)
+    cases += lgrams.ng_cases()[-4:] + lgrams.ng_whole_rule_cases() + lgrams.random_specs(seed() + 11, 15 if quick else 200)
     cases = json.loads(json.dumps(cases))
     X = lex_explore(rep, sc, cases, rng, 400 if quick else 1500, 400 if quick else 1500, 60 if quick else 300, alpha_cap=5)
     acc, lruns = X["acc"], X["lruns"]
@@ -481,9 +485,14 @@ def c11(tier):
             # does not reach EOF within 4*len+16 reads / 8*len+64 PushRune calls
             toks = r["tokens"]
             empties = [t for t in toks if t[1] == t[2] and t[0] > 1]
-            if empties and len(empties) >= len(toks) - len(r["chars"]) - 1:
+            # the recorded mechanisms concern rules that match the empty string *by their definition*; a rule the reference
+            # manual defines as non-empty (`[0-9]+?`) that loops like this is another defect
+            macros = {m["name"]: m["expr"] for m in c.get("macros", [])}
+            nullable_tok = any(ru["kind"] == "token" and lgrams.py_nullable(ru["expr"], macros) for m in c["modes"] for ru in m["rules"])
+            nullable_frag = any(ru["kind"] == "frag" and lgrams.py_nullable(ru["expr"], macros) for m in c["modes"] for ru in m["rules"])
+            if empties and len(empties) >= len(toks) - len(r["chars"]) - 1 and (nullable_tok or nullable_frag):
                 sig = "c11.nullable-rule-empty-token-loop"
-            elif r["steps"] and len([s for s in r["steps"][-20:] if s[1] == 3]) >= 18:
+            elif r["steps"] and len([s for s in r["steps"][-20:] if s[1] == 3]) >= 18 and nullable_frag:
                 sig = "c11.nullable-fragment-try-again-loop"
             else:
                 sig = "c11.no-eof:" + c["id"]
